@@ -146,12 +146,13 @@ def _np_arr(x, np, dtype):
     return np.asarray(x, dtype=dtype)
 
 
-def build_list_array(f, np):
-    """a real pyarrow ListArray from the model of its buffers (offset, length, bufs)"""
+def build_list_array(f, np, coord_dtype=None):
+    """a real pyarrow ListArray from the model of its buffers (offset, length, bufs); the coordinate buffer is given
+    the coordinate subtype named by the generator (values are exactly representable in it), float64 by default"""
     import pyarrow as pa
     bufs = f['bufs']
     levels = (len(bufs) - 2) // 2
-    values = pa.array(np.asarray(bufs[-1], dtype='float64'))
+    values = pa.array(np.asarray(bufs[-1], dtype='float64').astype(coord_dtype or 'float64'))
     child = values
     for k in range(levels - 1, 0, -1):
         off = np.asarray(bufs[2 * k + 1], dtype='int64').astype('int32')
@@ -178,7 +179,20 @@ def build_record(v, np):
                            np.ascontiguousarray(f['_keys'], dtype='int64'), int(f['_page_size']),
                            np.ascontiguousarray(f['_bounds_tree'], dtype='float64'))
     if cls == 'ListArray':
-        return build_list_array(f, np)
+        return build_list_array(f, np, (v['fields'].get('coord_dtype') or {}).get('v'))
+    if cls == 'FixedArray':
+        import pyarrow as pa
+        cd = (v['fields'].get('coord_dtype') or {}).get('v') or 'float64'
+        bufs = f['bufs']
+        vals = np.asarray(bufs[1], dtype='float64').astype(cd)
+        valid = bufs[0]
+        vbuf = pa.py_buffer(np.asarray(valid, dtype='uint8').tobytes()) if valid is not None and len(valid) else None
+        return (pa.Array.from_buffers(pa.binary(2 * vals.dtype.itemsize), int(f['length']), [vbuf, pa.py_buffer(vals.tobytes())],
+                                      offset=int(f['offset'])), cd)
+    if cls == 'PointArray':
+        import spatialpandas.geometry as g
+        arr, cd = f['data']
+        return g.PointArray(arr, dtype=cd)
     if cls in ('LineArray', 'MultiPointArray', 'RingArray', 'PolygonArray', 'MultiLineArray', 'MultiPolygonArray'):
         import spatialpandas.geometry as g
         return getattr(g, cls)(f['listarray'])
